@@ -90,6 +90,20 @@ type Ctx struct {
 	outDir     string
 	// harnessErrors panics raised by harness own code: inconclusive, never a violation
 	harnessErrors []string
+	// inconclusive reasons reported by the monitor itself (checker timeout, hook never reached)
+	inconclusive []string
+	// distinctOff mutes Distinct while monitors of other properties are reused as sub-monitors
+	distinctOff bool
+}
+
+// Inconclusive records that the case could not be decided (never folded into held or violated)
+func (c *Ctx) Inconclusive(format string, args ...interface{}) {
+	if len(c.inconclusive) < 10 {
+		c.inconclusive = append(c.inconclusive, fmt.Sprintf("case %d: ", c.Case)+fmt.Sprintf(format, args...))
+	}
+	if c.Replay {
+		fmt.Printf("  inconclusive: "+format+"\n", args...)
+	}
 }
 
 func newCtx(p *Prop, tier string, seed int64, shard int) *Ctx {
@@ -125,13 +139,21 @@ func (c *Ctx) beginCase(idx int) {
 }
 
 // Eval counts evaluations (cases / operator applications / epochs / queries - as stated in the rule of the property)
-func (c *Ctx) Eval(n int) { c.evals += int64(n) }
+func (c *Ctx) Eval(n int) {
+	if !c.distinctOff {
+		c.evals += int64(n)
+	}
+}
 
 // Count increments free-form coverage counter
 func (c *Ctx) Count(key string, n int) { c.counters[key] += int64(n) }
 
 // Distinct registers fingerprint of a non-trivial case
-func (c *Ctx) Distinct(fp uint64) { c.distinct[fp] = struct{}{} }
+func (c *Ctx) Distinct(fp uint64) {
+	if !c.distinctOff {
+		c.distinct[fp] = struct{}{}
+	}
+}
 
 // Sample keeps a few of actual cases for the evidence
 func (c *Ctx) Sample(v interface{}) {
@@ -184,6 +206,7 @@ type childResult struct {
 	Violations []*Violation             `json:"violations"`
 	Extra      map[string]interface{}   `json:"extra,omitempty"`
 	HarnessErrors []string              `json:"harness_errors,omitempty"`
+	Inconclusive  []string              `json:"inconclusive,omitempty"`
 }
 
 func runCaseGuarded(p *Prop, c *Ctx, idx int) {
@@ -264,6 +287,7 @@ func runChild(propId, tier string, seed int64, shard, nshards int, outDir string
 	res.Samples = c.samples
 	res.Violations = c.violations
 	res.HarnessErrors = c.harnessErrors
+	res.Inconclusive = c.inconclusive
 	// persist replay files for violations
 	for _, v := range res.Violations {
 		v.Replay = writeReplay(v)
@@ -292,7 +316,7 @@ func runChild(propId, tier string, seed int64, shard, nshards int, outDir string
 func writeReplay(v *Violation) string {
 	dir := replayDir(v.Property)
 	_ = os.MkdirAll(dir, 0o755)
-	name := fmt.Sprintf("%s-%s-%d-case%d-%x.json", v.Property, v.Tier, v.Seed, v.Case, hashString(v.Kind)&0xffffff)
+	name := fmt.Sprintf("%s-%s-%d-case%d-%x.json", v.Property, v.Tier, v.Seed, v.Case, hashString(v.Kind+"|"+violationKey(v))&0xffffff)
 	path := filepath.Join(dir, name)
 	data, _ := json.MarshalIndent(v, "", " ")
 	_ = os.WriteFile(path, data, 0o644)
@@ -317,6 +341,12 @@ func runReplay(path string) int {
 	if !ok {
 		fmt.Fprintf(os.Stderr, "unknown property %s\n", v.Property)
 		return 3
+	}
+	if v.Case < 0 {
+		// the witness is not a single case (race report): re-run the whole check at the recorded seed
+		fmt.Printf("replaying %s %s at seed %d: recorded [%s] %s\n", v.Property, v.Tier, v.Seed, v.Kind, firstLine(v.Message))
+		_ = os.Setenv("VERIF_SEED", fmt.Sprint(v.Seed))
+		return runParent(v.Property, v.Tier)
 	}
 	debug.SetMaxStack(64 << 20)
 	fmt.Printf("replaying %s case %d (tier %s, seed %d): recorded [%s] %s\n", v.Property, v.Case, v.Tier, v.Seed, v.Kind, v.Message)
@@ -513,6 +543,11 @@ func runParent(propId, tier string) int {
 			}
 		}
 		pr.violations = append(pr.violations, res.Violations...)
+		for i, reason := range res.Inconclusive {
+			if i < 3 {
+				pr.inconcl = append(pr.inconcl, reason)
+			}
+		}
 		for i, he := range res.HarnessErrors {
 			if i < 2 {
 				pr.inconcl = append(pr.inconcl, "harness error: "+firstLine(he))
